@@ -127,3 +127,35 @@ def run_lines_parallel(exe, lines, jobs=8, timeout=3600):
     out = [l for r in res for l in r[1]]
     err = "".join(r[2] for r in res)
     return rc, out, err
+
+
+class Server:
+    """a persistent protocol server (harness or Lean driver): one request line in, one response out"""
+
+    def __init__(self, exe):
+        self.p = subprocess.Popen([exe], stdin=subprocess.PIPE, stdout=subprocess.PIPE, text=True, bufsize=1)
+
+    def ask(self, line):
+        self.p.stdin.write(line + "\n")
+        self.p.stdin.flush()
+        out = self.p.stdout.readline()
+        if not out:
+            raise RuntimeError("server died on request: " + line[:200])
+        return out.rstrip("\n")
+
+    def ask_many(self, lines):
+        # write all, then read all (the servers answer line by line; pipes buffer comfortably
+        # for the batch sizes used here)
+        for chunk in range(0, len(lines), 200):
+            part = lines[chunk:chunk + 200]
+            self.p.stdin.write("\n".join(part) + "\n")
+            self.p.stdin.flush()
+            for _ in part:
+                yield self.p.stdout.readline().rstrip("\n")
+
+    def close(self):
+        try:
+            self.p.stdin.close()
+            self.p.wait(timeout=10)
+        except Exception:
+            self.p.kill()
